@@ -135,6 +135,9 @@ def enumerate_cases(tier):
                         if tier == 'quick' and top != 'direct' and (wp + kp) % 2:
                             continue
                         for i in range(n):
+                            # a printer returning a non-document at every position (must surface as ValueError)
+                            if tier == 'thorough' or (wp + kp + i) % 2 == 0:
+                                yield {'tree': r, 'badret': [i, ('int', 'none', 'bytes')[(i + wp) % 3]]}
                             for e_i, exc in enumerate(EXCS):
                                 if tier == 'quick' and n >= 4 and (e_i + i + wp) % 3:
                                     continue
@@ -161,6 +164,9 @@ def fixed_cases():
     yield {'tree': ['list', [['fn', 'a', [['fn', 'b', []]]], ['int', 1]]], 'badret': [1, 'int']}   # D12
     yield {'tree': ['dict', [['k', ['list', [['fn', 'a', []]]]]]], 'badret': [0, 'none']}
     yield {'tree': ['list', [['tcmt', 'tc', ['list', [['fn2', 'a', []]]]]]], 'badret': [0, 'bytes']}
+    # below a value that carries a trailing comment and whose printer does not take one
+    yield {'tree': ['list', [['tcmt', 'tc', ['fn2', 'outer', [['fn', 'inner', []]]]], ['int', 1]]], 'badret': [1, 'int']}
+    yield {'tree': ['tcmt', 'tc', ['fn2', 'outer', [['list', [['fn2', 'inner', []]]]]]], 'badret': [1, 'none']}
 
 
 def strategy(tier):
